@@ -760,6 +760,108 @@ pub fn e4_scenarios(filter: &str) -> Vec<ConnScenario> {
     v
 }
 
+/// C07 on real TCP nodes (E4): a local **force close** while protocol X's event channel is full and stays full for 8 s of
+/// virtual time. `TcpConnection`'s ForceClose arm must still tell every protocol and the manager, exactly once, after X
+/// drains (the SimNet variant above ends the connection by cutting the carrier and exercises the mirror; this one
+/// exercises `transport/tcp/connection.rs` itself).
+fn backpressure_force_close_tcp(ctx: &mut Ctx) {
+    use crate::env::node::MonitorCmd;
+    let result = std::thread::spawn(|| -> Result<(usize, usize), Viol> {
+        let rt = crate::env::driver::runtime_io(5);
+        rt.block_on(async {
+            let (_park_tx, park_rx) = std::sync::mpsc::channel::<()>();
+            let _parked = tokio::task::spawn_blocking(move || {
+                let _ = park_rx.recv();
+            });
+            let mut scn = sc("c07", 100_000, false, 0, vec![]);
+            scn.real_tcp = true;
+            let mut w = World::new();
+            let st = scn.setup(&mut w);
+            // run every task and let the kernel deliver socket readiness until nothing moves any more
+            async fn settle(w: &mut World) {
+                loop {
+                    w.run_to_quiescence(1_000_000);
+                    if !e2::settle_io(w).await {
+                        break;
+                    }
+                }
+            }
+            settle(&mut w).await;
+            let _ = w.nodes[st.l].cmd.send(NodeCmd::Dial(st.peer_r));
+            settle(&mut w).await;
+            let est = |h: &MonitorHandle| h.log.lock().iter().filter(|e| matches!(e, Seen::Established { .. })).count();
+            if est(&st.x) != 1 || est(&st.y) != 1 {
+                return Err(Viol::new("machinery/backpressure-setup", "TCP connection was not established in the force-close back-pressure scenario"));
+            }
+            let _ = st.x.cmd.send(MonitorCmd::Pause);
+            settle(&mut w).await;
+            // fill X's channel: dial failures (connection refused on loopback port 1), one notification each
+            let capacity = 4096usize;
+            let count_y = |st: &St| st.y.log.lock().iter().filter(|e| matches!(e, Seen::DialFailure { .. })).count();
+            let mut sent = 0usize;
+            while count_y(&st) < capacity && sent < 3 * capacity {
+                for _ in 0..64 {
+                    let p = crate::util::peer(900_000 + sent as u64);
+                    let a: multiaddr::Multiaddr = "/ip4/127.0.0.1/tcp/1".parse().unwrap();
+                    let _ = w.nodes[st.l].cmd.send(NodeCmd::DialAddress(a.with(multiaddr::Protocol::P2p(p.into()))));
+                    sent += 1;
+                }
+                settle(&mut w).await;
+            }
+            let y_failures = count_y(&st);
+            if y_failures < capacity {
+                return Err(Viol::new("machinery/backpressure-setup", format!("expected {capacity} dial failures at protocol Y, saw {y_failures} after {sent} dials")));
+            }
+            // local force close by Y while X cannot take another event
+            let _ = st.y.cmd.send(MonitorCmd::ForceClose(st.peer_r));
+            settle(&mut w).await;
+            let app_closed = |w: &World| w.nodes[st.l].log.lock().iter().filter(|e| matches!(e, NodeLog::Event(s) if s.starts_with("ConnectionClosed"))).count();
+            if app_closed(&w) != 0 {
+                return Err(Viol::new(
+                    "c07/manager-told-before-protocols",
+                    "TCP, force close: protocol X's event channel is full so its ConnectionClosed cannot be enqueued yet, but the transport manager was already told",
+                ));
+            }
+            // X stays blocked for 8 s
+            for _ in 0..8 {
+                tokio::time::advance(Duration::from_secs(1)).await;
+                settle(&mut w).await;
+            }
+            let _ = st.x.cmd.send(MonitorCmd::Resume);
+            settle(&mut w).await;
+            let x_closed = st.x.log.lock().iter().filter(|e| matches!(e, Seen::Closed { .. })).count();
+            let y_closed = st.y.log.lock().iter().filter(|e| matches!(e, Seen::Closed { .. })).count();
+            if x_closed != 1 || y_closed != 1 || app_closed(&w) != 1 {
+                return Err(Viol::new(
+                    "c07/closed-not-reported-after-backpressure/tcp-force-close",
+                    format!("TCP, force close while protocol X was blocked for 8 s, then drained: X closed {x_closed}, Y closed {y_closed}, application closed {} (each must be 1)", app_closed(&w)),
+                ));
+            }
+            Ok((y_failures, w.driver.steps as usize))
+        })
+    })
+    .join();
+    match result {
+        Ok(Ok((n, steps))) => {
+            ctx.sub("backpressure_force_close_on_real_tcp", serde_json::json!({"dial_failures_queued_at_blocked_protocol": n, "driver_steps": steps, "held": true}));
+            ctx.cov_add("transitions", steps as u64);
+            ctx.cov_add("traces_validated_against_impl", 1);
+        }
+        Ok(Err(v)) => {
+            if v.signature.starts_with("machinery/") {
+                ctx.machinery_error(format!("{}: {}", v.signature, v.what));
+            } else {
+                ctx.violation(crate::report::Violation {
+                    signature: v.signature,
+                    what: v.what,
+                    replay: serde_json::json!({"engine": "scripted", "scenario": "backpressure_order_check"}),
+                });
+            }
+        }
+        Err(_) => ctx.machinery_error("TCP force-close back-pressure scenario panicked"),
+    }
+}
+
 /// C07, "protocols before the manager": fill protocol X's event channel to capacity (4096 dial-failure notifications
 /// while X does not poll), then end the connection. `ProtocolSet::report_connection_closed` must not tell the manager
 /// before X's notification has been enqueued, i.e. while X is blocked the application must not see ConnectionClosed and
@@ -861,12 +963,13 @@ pub fn run_filtered(ctx: &mut Ctx, filter: &'static str) {
     for s in &scns {
         // quick tier: the full bound only for short programs, one deviation less for the long ones
         let b = if !thorough && filter != "c09" && s.program.len() > 3 { bound - 1 } else { bound };
-        let e2 = E2 { bound: b, max_executions: 3_000_000, ..Default::default() };
+        let e2 = E2 { bound: b, max_executions: 3_000_000, demotions: usize::from(thorough || filter != "c07"), bound_with_demotion: 2, ..Default::default() };
         let out = e2.explore(s);
         e2::absorb(ctx, &s.name(), out);
     }
     if filter == "c07" {
         backpressure_order_check(ctx);
+        backpressure_force_close_tcp(ctx);
     }
     // ---- E4: the same programs on real TcpTransport / TcpConnection nodes over loopback sockets ----
     if filter == "c07" || filter == "c09" {
